@@ -36,10 +36,17 @@ def profile(tier):
         gen.device_specs(n_channels=(1, 3), allow_builtin=False,
                          chan_kw={"bandwidth": [8, 40], "simple_timing": True, "eom": True}),
     )
+    def emulable(d):
+        # the emulator refuses a DMM (ground-rydberg basis) on a device without a Rydberg channel
+        if d["type"] != "builtin" and not any(c["kind"] == "Rydberg" for c in d["channels"]):
+            d = dict(d, dmms=[], supports_slm_mask=False)
+        return d
+
+    dev = dev.map(emulable)
     return {
-        "fault_pct": 2, "min_ops": 4, "max_ops": 16 if tier == "quick" else 24,
+        "fault_pct": 2, "min_ops": 6, "max_ops": 16 if tier == "quick" else 24,
         "min_channels": 2, "measure": False, "magfield": True,
-        "weights": {"declare": 7, "declare_more": 2, "add": 12, "align": 1,
+        "weights": {"declare": 7, "declare_more": 2, "add": 16, "align": 1,
                     "delay": 1, "phase_shift": 2, "target": 4, "eom": 3,
                     "add_dmm": 5, "detmap": 3, "slm": 2},
         "device": dev,
@@ -70,7 +77,7 @@ def check(case, ctx: Ctx):
         return
     T = seq.get_duration()
     if T < 5 or T > 6000:  # the emulator documents a minimum of 4 samples
-        ctx.label("empty_or_too_long")
+        ctx.label("empty" if T < 5 else "too_long")
         return
     M = mh.HamModel(seq)
     if any(c.in_eom and c.T < T for c in M.chans.values()):
